@@ -141,6 +141,41 @@ Ltac mem :=
 Lemma rs_append_log hs s y : In y (rs_log (rs_append hs s)) -> In y hs \/ In y (rs_log s).
 Proof. unfold rs_append. cbn. intros H. apply in_app_or in H. destruct H as [H|H]; [left; apply in_rev; exact H|right; exact H]. Qed.
 
+Lemma drop_below_incl c hs y : In y (drop_below c hs) -> In y hs.
+Proof.
+  induction hs as [|a r IH]; cbn; [intros H; exact H|]. destruct (_ <? _); [intros H; right; apply IH; exact H|intros H; exact H].
+Qed.
+
+Lemma shim_ok_inv c hs nh :
+  shim_check c hs = ShimOk nh -> drop_below c hs <> [] /\ shim_walk c (drop_below c hs) = Some nh.
+Proof.
+  unfold shim_check. destruct hs as [|h0 r]; [discriminate|]. destruct (drop_below c (h0 :: r)) as [|a l]; [discriminate|].
+  destruct (shim_walk c (a :: l)) as [z|]; [|discriminate]. intros [= <-]. split; [discriminate|reflexivity].
+Qed.
+
+Lemma shim_skip_inv c hs : shim_check c hs = ShimSkip -> hs <> [] /\ drop_below c hs = [].
+Proof.
+  unfold shim_check. destruct hs as [|h0 r]; [discriminate|]. destruct (drop_below c (h0 :: r)) as [|a l]; [split; [discriminate|reflexivity]|].
+  destruct (shim_walk c (a :: l)); discriminate.
+Qed.
+
+Lemma drop_below_suffix c hs : exists pre, hs = pre ++ drop_below c hs /\ forall y, In y pre -> h_height y < h_height c.
+Proof.
+  induction hs as [|a r IH]; [exists []; split; [reflexivity|intros y []]|].
+  cbn [drop_below]. destruct (N.ltb_spec (h_height a) (h_height c)) as [H|H].
+  - destruct IH as (pre & E & Hp). exists (a :: pre). split; [cbn; rewrite <- E; reflexivity|].
+    intros y [<-|Hy]; [exact H|apply Hp; exact Hy].
+  - exists []. split; [reflexivity|intros y []].
+Qed.
+
+Lemma drop_below_last c hs d : drop_below c hs <> [] -> last (drop_below c hs) d = last hs d.
+Proof.
+  intros Hne. destruct (drop_below_suffix c hs) as (pre & E & _). rewrite E at 2. symmetry. apply last_app'. exact Hne.
+Qed.
+
+Lemma drop_below_nil_hd c h0 r : drop_below c (h0 :: r) = [] -> h_height h0 < h_height c.
+Proof. cbn. destruct (N.ltb_spec (h_height h0) (h_height c)) as [H|H]; intros E; [exact H|discriminate E]. Qed.
+
 Lemma shim_walk_in c hs nh : shim_walk c hs = Some nh -> In nh hs \/ nh = c.
 Proof.
   revert c. induction hs as [|a r IH]; intros c Hw.
@@ -201,9 +236,7 @@ Proof.
       destruct k as [k' to|oto]; intros H; left; mem.
     + (* the new head is the last header of hs *)
       assert (Hnh : In nh hs \/ nh = c_cache c).
-      { unfold shim_check in Es. destruct hs as [|h0 r]; [discriminate|].
-        destruct (_ <=? _); [|discriminate]. destruct (shim_walk (c_cache c) (h0 :: r)) as [z|] eqn:Ew; [|discriminate].
-        injection Es as <-. apply shim_walk_in. exact Ew. }
+      { destruct (shim_ok_inv _ _ _ Es) as [_ Ew]. destruct (shim_walk_in _ _ _ Ew) as [Hi|Hi]; [left; apply (drop_below_incl _ _ _ Hi)|right; exact Hi]. }
       assert (Hnh' : nh = y -> In y hs \/ c_cache c = y) by (intros <-; destruct Hnh as [Hn|Hn]; [left; exact Hn|right; symmetry; exact Hn]).
       intros H. left. mem.
   - destruct Hpc as ([Hne _] & _ & Enh). intros H. left. mem.
@@ -292,7 +325,7 @@ Proof.
     destruct st as [|nh| | | |].
     + destruct (shim_check (c_cache c) [x]) as [| |nh|] eqn:Es; intros H; apply all_hdrs_set_thr in H; cbn in H; left; apply all_hdrs_intro; try tauto.
       assert (Hnh : nh = y -> y = c_cache c \/ x = y).
-      { intros <-. unfold shim_check in Es. destruct (_ <=? _); [|discriminate].
+      { intros <-. rewrite shim_check_1 in Es. destruct (_ <=? _); [|discriminate].
         destruct (shim_walk (c_cache c) [x]) as [z|] eqn:Ew; [|discriminate]. injection Es as <-.
         destruct (shim_walk_in _ _ _ Ew) as [[E|[]]|E]; [right; exact E|left; exact E]. }
       tauto.
@@ -785,21 +818,23 @@ Proof.
     assert (HP : forall y, In y hs -> P y) by (intros y Hy; apply (loop_P c y HI); rewrite Elp; cbn; apply in_or_app; left; exact Hy).
     destruct (cache_P c HI) as [Hct Hck].
     destruct (shim_check (c_cache c) hs) as [| |nh|] eqn:Es.
-    + unfold shim_check in Es. destruct hs; [contradiction|]. destruct (_ <=? _); [destruct (shim_walk _ _)|]; discriminate.
+    + unfold shim_check in Es. destruct hs; [contradiction|]. destruct (drop_below _ _); [discriminate|destruct (shim_walk _ _); discriminate].
     + (* skip path: the run starts below the cache *)
       split; [cbn; split; [split; assumption|exact Hak]|].
       assert (Hlt : h_height (hd hdr_nil hs) < h_height (c_cache c)).
-      { unfold shim_check in Es. destruct hs as [|h0 r]; [contradiction|]. cbn. destruct (N.leb_spec (h_height (c_cache c)) (h_height h0)); [destruct (shim_walk _ _); discriminate|assumption]. }
+      { destruct (shim_skip_inv _ _ Es) as [_ Ed]. destruct hs as [|h0 r]; [contradiction|]. cbn. eapply drop_below_nil_hd. exact Ed. }
       assert (Hm : forall n, In n (hts (c <| c_loop := LApp2 k hs |>)) <-> In n (hts c) \/ In n (map h_height hs)).
       { intros n. rewrite !in_hts. cbn. rewrite Elp. cbn. tauto. }
       split.
       * apply (closed_reserve (hts c) _ hs (h_height (c_cache c)) (i_closed c HI) (i_cache c HI) Hne Hc); [intros y Hy; apply HP; exact Hy|lia|exact Hm].
       * apply Hm. left. apply (i_cache c HI).
     + (* check path *)
-      assert (Hw' : shim_walk (c_cache c) hs = Some nh).
-      { unfold shim_check in Es. destruct hs as [|h0 r]; [discriminate|]. destruct (_ <=? _); [|discriminate]. destruct (shim_walk _ _); [injection Es as <-; reflexivity|discriminate]. }
-      destruct (shim_walk_last _ _ _ hdr_nil Hw' Hne) as [Enh Eh]. rewrite (wrap_succ _ Hck) in Eh.
-      assert (Eh' : h_height (hd hdr_nil hs) <= h_height (c_cache c) + 1) by (destruct Eh; lia).
+      destruct (shim_ok_inv _ _ _ Es) as [Hdn Hw'].
+      destruct (shim_walk_last _ _ _ hdr_nil Hw' Hdn) as [Enh Eh]. rewrite (wrap_succ _ Hck) in Eh.
+      rewrite (drop_below_last _ _ _ Hdn) in Enh.
+      assert (Eh' : h_height (hd hdr_nil hs) <= h_height (c_cache c) + 1).
+      { destruct hs as [|h0 r]; [contradiction|]. cbn [hd]. destruct (N.lt_ge_cases (h_height h0) (h_height (c_cache c))) as [Hl|Hl]; [lia|].
+        rewrite (drop_below_ge _ _ _ Hl) in Eh. cbn [hd] in Eh. destruct Eh; lia. }
       split; [cbn; split; [split; assumption|split; [exact Hak|exact Enh]]|].
       assert (Hm : forall n, In n (hts (c <| c_loop := LApp1 k hs nh |>)) <-> In n (hts c) \/ In n (map h_height hs)).
       { intros n. rewrite !in_hts. cbn. rewrite Elp. cbn. tauto. }
@@ -1158,9 +1193,28 @@ Lemma shim_check_ok_iff c hs :
   (exists nh, shim_check c hs = ShimOk nh) <-> wrun c hs.
 Proof.
   intros Hne Hk Hle. destruct hs as [|a l]; [contradiction|]. cbn [hd] in Hle.
-  rewrite <- (shim_walk_iff c (a :: l) Hk). unfold shim_check.
+  rewrite <- (shim_walk_iff c (a :: l) Hk). rewrite shim_check_hd.
   destruct (N.leb_spec (h_height c) (h_height a)); [|lia].
   destruct (shim_walk c (a :: l)) as [z|]; split; intros (nh & Hd); try discriminate; eexists; reflexivity.
+Qed.
+
+(** since /repo 7d16f07, for any non-empty list: accepted iff something reaches
+    the head's height and that part walks on from the head *)
+Lemma shim_check_ok_iff_rest c hs :
+  hs <> [] -> (forall y, In y (c :: hs) -> hok y) ->
+  (exists nh, shim_check c hs = ShimOk nh) <-> (drop_below c hs <> [] /\ wrun c (drop_below c hs)).
+Proof.
+  intros Hne Hk.
+  assert (Hk' : forall y, In y (c :: drop_below c hs) -> hok y).
+  { intros y [<-|Hy]; [apply Hk; left; reflexivity|apply Hk; right; apply (drop_below_incl _ _ _ Hy)]. }
+  rewrite <- (shim_walk_iff c (drop_below c hs) Hk'). unfold shim_check. destruct hs as [|a l]; [contradiction|].
+  destruct (drop_below c (a :: l)) as [|b r].
+  - split; [intros (nh & Hd); discriminate|intros [H _]; contradiction].
+  - destruct (shim_walk c (b :: r)) as [z|]; split.
+    + intros _. split; [discriminate|eexists; reflexivity].
+    + intros _. eexists; reflexivity.
+    + intros (nh & Hd); discriminate.
+    + intros [_ (nh & Hd)]; discriminate.
 Qed.
 
 (** in particular a run consecutive from the cached head is accepted *)
@@ -1534,7 +1588,7 @@ Qed.
 Lemma same_height_refused (cur x : hdr) :
   h_height cur < two64 -> h_height x = h_height cur -> h_id x <> h_id cur -> shim_check cur [x] = ShimNonAdj.
 Proof.
-  intros Hb Hh Hi. unfold shim_check. rewrite Hh, N.leb_refl. cbn [shim_walk]. rewrite Hh, N.eqb_refl.
+  intros Hb Hh Hi. rewrite shim_check_1. rewrite Hh, N.leb_refl. cbn [shim_walk]. rewrite Hh, N.eqb_refl.
   destruct (N.eqb_spec (h_id x) (h_id cur)) as [E|_]; [contradiction|]. cbn [andb].
   destruct (N.eqb_spec (h_height cur) (wrap64 (h_height cur + 1))) as [E|_]; [|reflexivity].
   exfalso. symmetry in E. revert E. apply wrap_succ_ne. exact Hb.
